@@ -859,6 +859,12 @@ class Sim:
             self.res.stats["probe:eq-checked"] += 1
             if st == "exc" or eq is not True:
                 self.fail("model:eq-with-rebuilt-container", got=eq if st == "ok" else exc_name(eq), **where)
+            if self.step % 5 == 0 and m.coord.size:
+                m2 = m.copy()
+                m2.coord.reshape(-1)[0] += 1.0
+                st, eq = call(lambda: obj == build(m2))
+                if st == "exc" or eq is not False:
+                    self.fail("model:eq-true-for-different-container", got=eq if st == "ok" else exc_name(eq), **where)
         if n == 0 or (m.kind == "stack" and m.m == 0):
             self.res.stats["probe:empty-container"] += 1
 
